@@ -131,6 +131,7 @@ class Sx:
         self.covered = set()
         self.obligations = 0
         self.discharged = 0
+        self.by_rewriting = 0  # obligations that z3's simplifier reduced to true (no query needed)
         self.violations = []  # dicts
         self.known_hits = []  # dicts
         self.findings = findings
@@ -236,6 +237,7 @@ class Sx:
         t = z3.simplify(boolterm(cond))
         if z3.is_true(t):
             self.discharged += 1
+            self.by_rewriting += 1
             return
         neg = z3.Not(t)
         no_ovf = [z3.Not(o) for o in c.ovf]
@@ -269,8 +271,55 @@ class Sx:
             fpsolve.STATS["z3_fallbacks"] += 1
         r = c._check(*extra)
         if r == z3.unsat:
+            if not c.has_fp:
+                self._crosscheck(extra)
             return "unsat", None
         return "sat", self.model_inputs(c.sat_model())
+
+    # ---- second solver: a seeded sample of the discharged bit-vector obligations is re-decided by
+    # the z3 4.8.12 and cvc5 1.0.3 binaries from an SMT-LIB2 export (thorough tier)
+    XSTATS = {"checked": 0, "agreed": 0, "inconclusive": 0, "disagreements": []}
+
+    def _crosscheck(self, extra):
+        import os
+        import random
+        import subprocess
+        import tempfile
+        rate = int(os.environ.get("VERIF_CROSSCHECK", "0"))
+        if rate <= 0:
+            return
+        rnd = getattr(Sx, "_rnd", None)
+        if rnd is None:
+            rnd = Sx._rnd = random.Random(int(os.environ.get("VERIF_SEED", "0")) + os.getpid())
+        if rnd.randrange(rate) != 0:
+            return
+        s = z3.Solver()
+        for a in list(self.ctx.pc) + list(extra):
+            s.add(a)
+        text = "(set-logic QF_BV)\n" + s.to_smt2().replace("(set-info :status unknown)", "")
+        fd, path = tempfile.mkstemp(suffix=".smt2", prefix="symx_x_")
+        answers = {}
+        try:
+            with os.fdopen(fd, "w") as f:
+                f.write(text)
+            for name, cmd in (("z3-4.8.12", ["/usr/bin/z3", "-T:20", path]),
+                              ("cvc5-1.0.3", ["cvc5", "--tlimit=20000", path])):
+                try:
+                    out = subprocess.run(cmd, capture_output=True, text=True, timeout=30).stdout
+                except (subprocess.TimeoutExpired, OSError):
+                    out = "unknown"
+                first = out.strip().split("\n", 1)[0].strip() if out.strip() else "unknown"
+                answers[name] = "unknown" if "(error" in out else first
+        finally:
+            os.unlink(path)
+        st = Sx.XSTATS
+        st["checked"] += 1
+        if any(v == "sat" for v in answers.values()):
+            st["disagreements"].append(f"{self.cfg.get('id')}: z3 5.1 unsat, {answers}")
+        elif all(v == "unsat" for v in answers.values()):
+            st["agreed"] += 1
+        else:
+            st["inconclusive"] += 1
 
     def _varnames(self):
         out = []
@@ -437,7 +486,7 @@ def explore_config(run, cfg, env, limits=None, findings=(), width=80, collect_fu
     cvc5_before = dict(fpsolve.STATS)
     res = {
         "cfg": cfg, "paths": 0, "aborted": 0, "decisions": 0, "queries": 0, "solver_s": 0.0,
-        "obligations": 0, "discharged": 0, "violations": [], "known": [], "inconclusive": [],
+        "obligations": 0, "discharged": 0, "by_rewriting": 0, "violations": [], "known": [], "inconclusive": [],
         "divergences": [], "concolic": 0, "covered": set(), "functions": set(), "forks": {},
         "errors": [], "samples": [], "assumptions": 0, "has_fp": False,
     }
@@ -508,6 +557,7 @@ def explore_config(run, cfg, env, limits=None, findings=(), width=80, collect_fu
         if status == "ok":
             res["obligations"] += sx.obligations
             res["discharged"] += sx.discharged
+            res["by_rewriting"] += sx.by_rewriting
         elif status == "inconclusive":
             res["obligations"] += sx.obligations  # counted, not discharged
         for v in sx.violations:
@@ -556,6 +606,8 @@ def explore_config(run, cfg, env, limits=None, findings=(), width=80, collect_fu
         prefix[-1] = [not last[0], False, last[2]]
 
     res["wall_s"] = time.time() - t0
+    res["crosscheck"] = dict(Sx.XSTATS, disagreements=list(Sx.XSTATS["disagreements"]))
+    Sx.XSTATS.update(checked=0, agreed=0, inconclusive=0, disagreements=[])
     res["cvc5_queries"] = fpsolve.STATS["cvc5_queries"] - cvc5_before["cvc5_queries"]
     res["cvc5_s"] = fpsolve.STATS["cvc5_s"] - cvc5_before["cvc5_s"]
     res["covered"] = sorted(res["covered"])
